@@ -43,7 +43,7 @@ ENGINES = [
          kind_free_text='Verus on SkipRetVal::construct and From<SkipResult> (separate file because of a Verus name-resolution limit)'),
     dict(name='V-cg', path='vx/contracts/v_cg.py', serves_properties=['C01'],
          kind_free_text='Verus on ByteClass::{new,add_byte,to_table}, Comparisons, StateType of logos-codegen/src/graph/mod.rs'),
-    dict(name='V-lex', path='vx/lexgen.py', serves_properties=['C02', 'C03', 'C05', 'C06', 'C07', 'C14'],
+    dict(name='V-lex', path='vx/lexgen.py', serves_properties=['C02', 'C03', 'C05', 'C06', 'C07', 'C14', 'C20'],
          kind_free_text='Verus on the text logos_codegen::generate emits (through /repo\'s logos-cli, rebuilt from the working tree on every run) for corpus '
                         'definitions, both code generators: every state function / the state-machine loop under contract; LEX, termination, overflow and '
                         'index safety proved for all inputs'),
@@ -190,7 +190,7 @@ def _vlex_costs():
 
 def vlex_select(spec, tier):
     costs = _vlex_costs()
-    budget = spec.get('quick_s', 18) if tier == 'quick' else spec.get('thorough_s', 120)
+    budget = spec.get('quick_s', 30) if tier == 'quick' else spec.get('thorough_s', 120)
     out = []
     for d in (spec['defs'] if tier == 'quick' else spec.get('defs_thorough', spec['defs'])):
         for cg in spec.get('codegens', ('tailcall', 'state_machine')):
@@ -204,7 +204,7 @@ def vlex_not_covered(spec):
     return sorted('%s/%s' % (d, cg) for d in spec.get('defs_thorough', spec['defs']) for cg in spec.get('codegens', ('tailcall', 'state_machine'))
                   if (costs.get('%s/%s' % (d, cg)) or {}).get('status') != 'ok')
 
-VLEX_ALL = ['B1', 'B2', 'B3', 'B4', 'B5', 'B6', 'B7', 'B8', 'E1', 'E3', 'S1', 'S3', 'L1', 'I2', 'P2', 'P2T', 'M1B', 'M2B', 'O3', 'O3A', 'Q3',
+VLEX_ALL = ['B1', 'B2', 'B3', 'B4', 'B5', 'B6', 'B7', 'B8', 'E1', 'E3', 'S1', 'S3', 'L1', 'I2', 'P2', 'P2T', 'M1B', 'M2B', 'O3', 'O3A', 'Q3', 'Q4',
             'L2', 'I1', 'P1', 'P1T', 'Q2', 'U1', 'U2', 'E2']
 VLEX_NOTE = ('V-lex: the text logos_codegen::generate emits (obtained through /repo\'s logos-cli on every run) for the corpus definitions %s, '
              'both code generators where the state-machine loop stays within the solver budget, is proved - for ALL inputs, no length bound - to satisfy the '
@@ -246,7 +246,7 @@ PLAN = {
         level='model_checking', engine='verus+kani',
         verus=[('v_cg', [{}]), ('v_src', BOTH)],
         twins=SRC_TWINS,
-        kani=klex_suite('K-lex maximal munch', SPEC_KINDS, BYTE_DEFS + SKIP_DEFS + STR_DEFS + ['K1', 'Q2'],
+        kani=klex_suite('K-lex maximal munch', SPEC_KINDS, BYTE_DEFS + SKIP_DEFS + STR_DEFS + ['K1', 'Q2', 'Q4'],
                         always=['ctx_B5_abcdefghi_q_s0'],
                         covers=['token produced', 'error produced', 'end of input reached', 'token after a skipped region'],
                         bounded=BOUND_NOTE % 'B1-B5, E1, S1, S2, U1, U2, E2, K1')
@@ -280,11 +280,11 @@ PLAN = {
         explanation='find_boundary / end_to_boundary contracts (V-src) + K-lex error-shaped corpus entries',
     ),
     'C03': dict(
-        vlex=dict(defs=VLEX_ALL, quick_s=18, thorough_s=150, canary_defs=['B1', 'S3']),
+        vlex=dict(defs=VLEX_ALL, quick_s=50, thorough_s=150, canary_defs=['B1', 'S3']),
         level='model_checking', engine='verus+kani',
         verus=[('v_src', BOTH)],
         twins=SRC_TWINS,
-        kani=klex_suite('K-lex progress and tiling', SPEC_KINDS, ['B1', 'B2', 'B5', 'E1', 'S1', 'S2', 'S3', 'U1', 'Q1', 'Q2', 'Q3', 'O2'],
+        kani=klex_suite('K-lex progress and tiling', SPEC_KINDS, ['B1', 'B2', 'B5', 'E1', 'S1', 'S2', 'S3', 'U1', 'Q1', 'Q2', 'Q3', 'Q4', 'O2'],
                         covers=['end of input reached', 'token produced', 'token after a skipped region'],
                         bounded=BOUND_NOTE % 'B1, B2, B5, E1, S1, S2, U1, Q1, O2'),
         technique='Verus proof that Iterator::next tiles the input for every lex satisfying the trait contract LEX; Verus proof (V-lex), for all inputs, that the code generated for the callback-free corpus definitions satisfies LEX and terminates (contracts on every state function / the state-machine loop, decreases measures); bounded model checking (Kani) of LEX and of the skip-only gaps for the rest of the corpus',
@@ -339,11 +339,11 @@ PLAN = {
         explanation='same spec, two feature sets',
     ),
     'C07': dict(
-        vlex=dict(defs=['Q2', 'Q3', 'B1', 'B2', 'E1', 'U1'], codegens=('tailcall',), canary_defs=['Q2']),
+        vlex=dict(defs=['Q2', 'Q3', 'Q4', 'B1', 'B2', 'E1', 'U1'], codegens=('tailcall',), canary_defs=['Q2']),
         level='model_checking', engine='verus+kani',
         verus=[('v_src', BOTH)],
         twins=SRC_TWINS,
-        kani=klex_suite('K-lex partial lexing', ('part',), ['Q1', 'Q2', 'Q3', 'B1', 'B2', 'E1', 'S2', 'U1'],
+        kani=klex_suite('K-lex partial lexing', ('part',), ['Q1', 'Q2', 'Q3', 'Q4', 'B1', 'B2', 'E1', 'E3', 'S2', 'U1'],
                         covers=['partial lexer committed an item', 'partial lexer asked for more input'], quick_per_def=6,
                         bounded='relational: partial lexer over S[..k] vs one-shot lexer over S, every split point k of concrete contexts with a symbolic continuation byte; definitions Q1 (tests/partial.rs), B1, B2, E1, S2, U1'),
         technique='relational bounded model checking (Kani): partial lexer on every prefix vs the one-shot lexer; Verus proof (V-src + V-lex) that a partial None leaves a well-formed empty span at or after the attempt start, in the runtime and in the generated code of the corpus definitions, for all inputs',
@@ -447,14 +447,15 @@ PLAN = {
         explanation='twins_agree on permuted definitions',
     ),
     'C20': dict(
-        level='model_checking', engine='kani',
+        vlex=dict(defs=['B1', 'B2', 'B5', 'B7', 'E3', 'S1', 'S3', 'Q2', 'L1', 'U2'], defs_thorough=VLEX_ALL, canary_defs=['B5']),
+        level='model_checking', engine='verus+kani',
         kani=klex_suite('K-lex read trace', SPEC_KINDS, ['B1', 'B2', 'B3', 'B5', 'B7', 'E1', 'E3', 'S1', 'S2', 'U1', 'K1'],
                         covers=['C20 monitor: at least two reads traced', 'token produced'], configs=(('verif_hooks',),), quick_per_def=6, quick_cost=60,
                         always=['ctx_B7__23abcdefghijklmnopqrstuvwx_q_s0', 'ctx_B5_abcdefghijklmnop_q_s0'],
                         bounded=BOUND_NOTE % 'B1, B2, B3, B5, E1, S1, S2, U1, K1 with the ghost read-trace monitor of the verif_hooks feature'),
         kani_extra=None,
-        technique='bounded model checking (Kani) with a ghost read-trace monitor (feature verif_hooks): offsets never decrease within an attempt, never fall below its start, reads <= 4 x bytes examined + 4',
-        level_text='Every source read goes through LexerInternal::read, which the hook instruments; the monitor flags are asserted after each explored next(). Bounded.',
+        technique='Verus proof (V-lex) with ghost state in the generated code of the corpus definitions: within an attempt the offsets passed to LexerInternal::read never decrease, for all inputs; bounded model checking (Kani) with a ghost read-trace monitor (feature verif_hooks): offsets never decrease within an attempt, never fall below its start, reads <= 4 x bytes examined + 4',
+        level_text='Every source read goes through LexerInternal::read. Monotonicity of the read offsets within an attempt is proved for all inputs for the generated code of the V-lex corpus (ghost variable vlex_floor, assertions before every read and every transition); the linear bound on the number of reads and the start floor are asserted by the hook monitor after each explored next() - bounded.',
         level_note='the linear bound is checked on short inputs only, where a super-linear defect may stay below it; monotonicity is the sharper check.',
         design_ref='DESIGN.md section 3 (C20)',
         explanation='ghost state in src/verif_hooks.rs',
